@@ -5,6 +5,7 @@ import (
 	"fmt"
 	"io"
 	"net/http"
+	"strings"
 
 	ingestclient "github.com/ipni/go-libipni/ingest/client"
 	"github.com/ipni/go-libipni/ingest/model"
@@ -104,7 +105,7 @@ func (q c18Req) send(cl *ingestclient.Client) error {
 // check one exchange. altered: the body was changed in transit; swapped: it
 // was handed to the other endpoint's reader.
 func c18Check(r *simkit.Run, ep *adminEndpoint, q c18Req, cerr error, altered, swapped bool, desc string) {
-	legit := q.named == q.signer && !swapped
+	legit := q.named == q.signer && !swapped && !strings.Contains(desc, "another payload type")
 	if ep.accepted {
 		// accepted: must be the named provider's own request with the fields
 		// it was built from
@@ -121,6 +122,8 @@ func c18Check(r *simkit.Run, ep *adminEndpoint, q c18Req, cerr error, altered, s
 			same = !q.ingest && !swapped && g.PeerID == q.named.ID && eqStrs(as, q.addrs)
 		}
 		switch {
+		case !legit && strings.Contains(desc, "another payload type"):
+			r.Violate("c18.accepted", "%s request sealed for the right domain but with another payload type was accepted", kindName(q.ingest))
 		case !legit:
 			r.Violate("c18.accepted", "%s request naming %s but signed by %s (%s) was accepted", kindName(q.ingest), q.named.Name, q.signer.Name, desc)
 		case !same:
